@@ -73,7 +73,7 @@ Proof. vm_compute. split; reflexivity. Qed.
 (* ------------------------------------------------------------------------------------------------------
    Added in build session 4 (statements re-stated from the proof files by harness tooling; each is closed by
    exact). *)
-From SplipyModel Require Import Proofs.ObjEval Model.ConstPar Proofs.SplitCompose Proofs.SectionEndToEnd Transfer.ParamObj Transfer.ParamOps Transfer.ParamOps2.
+From SplipyModel Require Import Proofs.ObjEval Model.ConstPar Proofs.SplitCompose Proofs.SectionEndToEnd Transfer.ParamObj Transfer.ParamOps Transfer.ParamOps2 Model.EdgeLoop Proofs.EdgeLoopProofs.
 Open Scope R_scope.
 Theorem C15_pinned_eval :
   forall (tol : R) (o : obj R),
@@ -247,4 +247,203 @@ Theorem C15_executed_is_proved_section :
   forall (o : obj Q) (sels : list nat), objQ2R (obj_section o sels) = obj_section (objQ2R o) sels.
 Proof. exact @obj_section_transfer. Qed.
 Print Assumptions C15_executed_is_proved_section.
+
+Theorem C15_loop_order2_sound :
+  forall (A : Type) (rd : A -> A) (rtol atol : R) (cs out : list (ecurve (list R) A)),
+         loop_order2 rtol atol rd cs = Ok out ->
+         exists
+           (c0 c1 c2 c3 : ecurve (list R) A) (used : list (ecurve (list R) A)) (b1 b2 b3 : bool) 
+         (x1 x2 x3 : ecurve (list R) A),
+           cs = [c0; c1; c2; c3] /\
+           Permutation.Permutation [c1; c2; c3] used /\
+           [x1; x2; x3] = mrevs rd [b1; b2; b3] used /\
+           out = [c0; x1; x2; x3] /\ closed_loop rtol atol [c0; x1; x2; x3].
+Proof. exact @loop_order2_sound. Qed.
+Print Assumptions C15_loop_order2_sound.
+
+Theorem C15_loop_order2_complete :
+  forall (A : Type) (rd : A -> A) (rtol atol : R) (c0 c1 c2 c3 u1 u2 u3 : ecurve (list R) A) (b1 b2 b3 : bool),
+         Permutation.Permutation [c1; c2; c3] [u1; u2; u3] ->
+         closed_loop rtol atol [c0; mrev rd b1 u1; mrev rd b2 u2; mrev rd b3 u3] ->
+         exists x1 x2 x3 : ecurve (list R) A,
+           loop_order2 rtol atol rd [c0; c1; c2; c3] = Ok [c0; x1; x2; x3] /\ closed_loop rtol atol [c0; x1; x2; x3].
+Proof. exact @loop_order2_complete. Qed.
+Print Assumptions C15_loop_order2_complete.
+
+Theorem C15_loop_order2_err_iff :
+  forall (A : Type) (rd : A -> A) (rtol atol : R) (c0 c1 c2 c3 : ecurve (list R) A),
+         loop_order2 rtol atol rd [c0; c1; c2; c3] = Err RuntimeError <->
+         (forall (u1 u2 u3 : ecurve (list R) A) (b1 b2 b3 : bool),
+          Permutation.Permutation [c1; c2; c3] [u1; u2; u3] ->
+          ~ closed_loop rtol atol [c0; mrev rd b1 u1; mrev rd b2 u2; mrev rd b3 u3]).
+Proof. exact @loop_order2_err_iff. Qed.
+Print Assumptions C15_loop_order2_err_iff.
+
+Theorem C15_loop_order2_open_chain_rejected :
+  forall (A : Type) (rd : A -> A) (rtol atol : R) (c0 c1 c2 c3 : ecurve (list R) A),
+         (forall c : ecurve (list R) A,
+          In c [c1; c2; c3] ->
+          ~ closeR rtol atol (e_first c) (e_first c0) /\ ~ closeR rtol atol (e_last c) (e_first c0)) ->
+         loop_order2 rtol atol rd [c0; c1; c2; c3] = Err RuntimeError.
+Proof. exact @loop_order2_open_chain_rejected. Qed.
+Print Assumptions C15_loop_order2_open_chain_rejected.
+
+Theorem C15_loop_order2_first :
+  forall (A : Type) (rd : A -> A) (rtol atol : R) (c0 c1 c2 c3 : ecurve (list R) A)
+           (out : list (ecurve (list R) A)),
+         loop_order2 rtol atol rd [c0; c1; c2; c3] = Ok out ->
+         closed_loop rtol atol [c0; c1; c2; c3] /\ out = [c0; c1; c2; c3] \/
+         ~ closed_loop rtol atol [c0; c1; c2; c3] /\
+         (exists
+            (l1 : list (list (ecurve (list R) A))) (t : list (ecurve (list R) A)) (l2 : list (list (ecurve (list R) A))),
+            candidates2 rd c1 c2 c3 = l1 ++ t :: l2 /\
+            out = c0 :: t /\
+            closed_loop rtol atol (c0 :: t) /\
+            (forall t' : list (ecurve (list R) A), In t' l1 -> ~ closed_loop rtol atol (c0 :: t'))).
+Proof. exact @loop_order2_first. Qed.
+Print Assumptions C15_loop_order2_first.
+
+Theorem C15_loop_order2_agrees_separated :
+  forall (A : Type) (rd : A -> A) (Pc : nat -> list R) (rtol atol : R) (cs : list (ecurve (list R) A))
+           (s : list nat) (r : list bool),
+         0 <= atol ->
+         0 <= rtol ->
+         (forall i j : nat, (i < 4)%nat -> (j < 4)%nat -> i <> j -> allclose rtol atol (Pc i) (Pc j) = false) ->
+         In s perms4 ->
+         length r = 4%nat ->
+         Forall2 (is_side Pc) cs (combine s r) -> loop_order2 rtol atol rd cs = loop_order rtol atol rd cs.
+Proof. exact @loop_order2_agrees_separated. Qed.
+Print Assumptions C15_loop_order2_agrees_separated.
+
+Theorem C15_old_greedy_search_sound :
+  forall (A : Type) (rd : A -> A) (rtol atol : R) (cs out : list (ecurve (list R) A)),
+         loop_order rtol atol rd cs = Ok out ->
+         exists
+           (c0 c1 c2 c3 : ecurve (list R) A) (used : list (ecurve (list R) A)) (b1 b2 b3 : bool) 
+         (x1 x2 x3 : ecurve (list R) A),
+           cs = [c0; c1; c2; c3] /\
+           Permutation.Permutation [c1; c2; c3] used /\
+           [x1; x2; x3] = mrevs rd [b1; b2; b3] used /\
+           out = [c0; x1; x2; x3] /\ junction rtol atol c0 x1 /\ junction rtol atol x1 x2 /\ junction rtol atol x2 x3.
+Proof. exact @loop_order_sound. Qed.
+Print Assumptions C15_old_greedy_search_sound.
+
+Theorem C15_old_greedy_search_complete_if_corners_separated :
+  forall (A : Type) (rd : A -> A) (Pc : nat -> list R) (rtol atol : R) (cs : list (ecurve (list R) A))
+           (s : list nat) (r : list bool),
+         0 <= atol ->
+         0 <= rtol ->
+         (forall i j : nat, (i < 4)%nat -> (j < 4)%nat -> i <> j -> allclose rtol atol (Pc i) (Pc j) = false) ->
+         In s perms4 ->
+         length r = 4%nat ->
+         Forall2 (is_side Pc) cs (combine s r) ->
+         exists c0 x1 x2 x3 : ecurve (list R) A,
+           hd_error cs = Some c0 /\ loop_order rtol atol rd cs = Ok [c0; x1; x2; x3] /\ closed_exact [c0; x1; x2; x3].
+Proof. exact @loop_order_complete. Qed.
+Print Assumptions C15_old_greedy_search_complete_if_corners_separated.
+
+Theorem C15_old_greedy_search_accepted_open_chains :
+  forall (A : Type) (rd : A -> A) (rtol atol : R) (c0 c1 c2 c3 : ecurve (list R) A),
+         junction rtol atol c0 c1 ->
+         junction rtol atol c1 c2 ->
+         junction rtol atol c2 c3 -> loop_order rtol atol rd [c0; c1; c2; c3] = Ok [c0; c1; c2; c3].
+Proof. exact @loop_order_open_chain_accepted. Qed.
+Print Assumptions C15_old_greedy_search_accepted_open_chains.
+
+Theorem C15_unit_square_any_arrangement :
+  forall (A : Type) (rd : A -> A) (cs : list (ecurve (list R) A)) (s : list nat) (r : list bool),
+         Permutation.Permutation [0%nat; 1%nat; 2%nat; 3%nat] s ->
+         length r = 4%nat ->
+         Forall2 (is_side unit_square) cs (combine s r) ->
+         exists c0 x1 x2 x3 : ecurve (list R) A,
+           hd_error cs = Some c0 /\
+           loop_order 0 (1 / 100000000) rd cs = Ok [c0; x1; x2; x3] /\ closed_exact [c0; x1; x2; x3].
+Proof. exact @unit_square_any_arrangement. Qed.
+Print Assumptions C15_unit_square_any_arrangement.
+
+Theorem C15_degenerate_edge_triangle2 :
+  loop_order 0%Q 0.00000001%Q (fun x : nat * bool => (fst x, negb (snd x)))
+           [{| e_first := [0%Q; 0%Q]; e_last := [1%Q; 0%Q]; e_data := (0%nat, false) |};
+            {| e_first := [1%Q; 1%Q]; e_last := [0%Q; 0%Q]; e_data := (1%nat, false) |};
+            {| e_first := [1%Q; 0%Q]; e_last := [1%Q; 1%Q]; e_data := (2%nat, false) |};
+            {| e_first := [1%Q; 1%Q]; e_last := [1%Q; 1%Q]; e_data := (3%nat, false) |}] = 
+         Err RuntimeError /\
+         loop_order2 0%Q 0.00000001%Q (fun x : nat * bool => (fst x, negb (snd x)))
+           [{| e_first := [0%Q; 0%Q]; e_last := [1%Q; 0%Q]; e_data := (0%nat, false) |};
+            {| e_first := [1%Q; 1%Q]; e_last := [0%Q; 0%Q]; e_data := (1%nat, false) |};
+            {| e_first := [1%Q; 0%Q]; e_last := [1%Q; 1%Q]; e_data := (2%nat, false) |};
+            {| e_first := [1%Q; 1%Q]; e_last := [1%Q; 1%Q]; e_data := (3%nat, false) |}] =
+         Ok
+           [{| e_first := [0%Q; 0%Q]; e_last := [1%Q; 0%Q]; e_data := (0%nat, false) |};
+            {| e_first := [1%Q; 0%Q]; e_last := [1%Q; 1%Q]; e_data := (2%nat, false) |};
+            {| e_first := [1%Q; 1%Q]; e_last := [1%Q; 1%Q]; e_data := (3%nat, false) |};
+            {| e_first := [1%Q; 1%Q]; e_last := [0%Q; 0%Q]; e_data := (1%nat, false) |}].
+Proof. exact @degenerate_edge_triangle2. Qed.
+Print Assumptions C15_degenerate_edge_triangle2.
+
+Theorem C15_pinched_loop_both_orders2 :
+  loop_order2 0%Q 0.00000001%Q (fun x : nat * bool => (fst x, negb (snd x)))
+           [{| e_first := [0%Q; 0%Q]; e_last := [1%Q; 0%Q]; e_data := (0%nat, false) |};
+            {| e_first := [1%Q; 0%Q]; e_last := [2%Q; 1%Q]; e_data := (1%nat, false) |};
+            {| e_first := [2%Q; 1%Q]; e_last := [1%Q; 0%Q]; e_data := (2%nat, false) |};
+            {| e_first := [1%Q; 0%Q]; e_last := [0%Q; 0%Q]; e_data := (3%nat, false) |}] =
+         Ok
+           [{| e_first := [0%Q; 0%Q]; e_last := [1%Q; 0%Q]; e_data := (0%nat, false) |};
+            {| e_first := [1%Q; 0%Q]; e_last := [2%Q; 1%Q]; e_data := (1%nat, false) |};
+            {| e_first := [2%Q; 1%Q]; e_last := [1%Q; 0%Q]; e_data := (2%nat, false) |};
+            {| e_first := [1%Q; 0%Q]; e_last := [0%Q; 0%Q]; e_data := (3%nat, false) |}] /\
+         loop_order2 0%Q 0.00000001%Q (fun x : nat * bool => (fst x, negb (snd x)))
+           [{| e_first := [0%Q; 0%Q]; e_last := [1%Q; 0%Q]; e_data := (0%nat, false) |};
+            {| e_first := [1%Q; 0%Q]; e_last := [0%Q; 0%Q]; e_data := (3%nat, false) |};
+            {| e_first := [1%Q; 0%Q]; e_last := [2%Q; 1%Q]; e_data := (1%nat, false) |};
+            {| e_first := [2%Q; 1%Q]; e_last := [1%Q; 0%Q]; e_data := (2%nat, false) |}] =
+         Ok
+           [{| e_first := [0%Q; 0%Q]; e_last := [1%Q; 0%Q]; e_data := (0%nat, false) |};
+            {| e_first := [1%Q; 0%Q]; e_last := [2%Q; 1%Q]; e_data := (1%nat, false) |};
+            {| e_first := [2%Q; 1%Q]; e_last := [1%Q; 0%Q]; e_data := (2%nat, false) |};
+            {| e_first := [1%Q; 0%Q]; e_last := [0%Q; 0%Q]; e_data := (3%nat, false) |}].
+Proof. exact @pinched_loop_both_orders2. Qed.
+Print Assumptions C15_pinched_loop_both_orders2.
+
+Theorem C15_open_chain_rejected2 :
+  loop_order2 0%Q 0.00000001%Q (fun x : nat * bool => (fst x, negb (snd x)))
+           [{| e_first := [0%Q; 0%Q]; e_last := [1%Q; 0%Q]; e_data := (0%nat, false) |};
+            {| e_first := [1%Q; 0%Q]; e_last := [1%Q; 1%Q]; e_data := (1%nat, false) |};
+            {| e_first := [1%Q; 1%Q]; e_last := [0%Q; 1%Q]; e_data := (2%nat, false) |};
+            {| e_first := [0%Q; 1%Q]; e_last := [(-1)%Q; 2%Q]; e_data := (3%nat, false) |}] = 
+         Err RuntimeError /\
+         loop_order2 0%Q 0.00000001%Q (fun x : nat * bool => (fst x, negb (snd x)))
+           [{| e_first := [0%Q; 0%Q]; e_last := [1%Q; 0%Q]; e_data := (0%nat, false) |};
+            {| e_first := [(-1)%Q; 2%Q]; e_last := [0%Q; 1%Q]; e_data := (1%nat, false) |};
+            {| e_first := [1%Q; 1%Q]; e_last := [1%Q; 0%Q]; e_data := (2%nat, false) |};
+            {| e_first := [1%Q; 1%Q]; e_last := [0%Q; 1%Q]; e_data := (3%nat, false) |}] = 
+         Err RuntimeError.
+Proof. exact @open_chain_rejected2. Qed.
+Print Assumptions C15_open_chain_rejected2.
+
+Theorem C15_old_greedy_search_incomplete_refuted :
+  loop_order 0%Q 0.00000001%Q (fun x : nat * bool => (fst x, negb (snd x)))
+           [{| e_first := [0%Q; 0%Q]; e_last := [1%Q; 0%Q]; e_data := (0%nat, false) |};
+            {| e_first := [1%Q; 0%Q]; e_last := [0%Q; 0%Q]; e_data := (3%nat, false) |};
+            {| e_first := [1%Q; 0%Q]; e_last := [2%Q; 1%Q]; e_data := (1%nat, false) |};
+            {| e_first := [2%Q; 1%Q]; e_last := [1%Q; 0%Q]; e_data := (2%nat, false) |}] = 
+         Err RuntimeError.
+Proof. exact @complete_without_separation_refuted. Qed.
+Print Assumptions C15_old_greedy_search_incomplete_refuted.
+
+Theorem C15_old_greedy_search_open_output_refuted :
+  loop_order 0%Q 0.00000001%Q (fun x : nat * bool => (fst x, negb (snd x)))
+           [{| e_first := [0%Q; 0%Q]; e_last := [1%Q; 0%Q]; e_data := (0%nat, false) |};
+            {| e_first := [1%Q; 0%Q]; e_last := [1%Q; 1%Q]; e_data := (1%nat, false) |};
+            {| e_first := [1%Q; 1%Q]; e_last := [0%Q; 1%Q]; e_data := (2%nat, false) |};
+            {| e_first := [0%Q; 1%Q]; e_last := [(-1)%Q; 2%Q]; e_data := (3%nat, false) |}] =
+         Ok
+           [{| e_first := [0%Q; 0%Q]; e_last := [1%Q; 0%Q]; e_data := (0%nat, false) |};
+            {| e_first := [1%Q; 0%Q]; e_last := [1%Q; 1%Q]; e_data := (1%nat, false) |};
+            {| e_first := [1%Q; 1%Q]; e_last := [0%Q; 1%Q]; e_data := (2%nat, false) |};
+            {| e_first := [0%Q; 1%Q]; e_last := [(-1)%Q; 2%Q]; e_data := (3%nat, false) |}] /\
+         allclose 0%Q 0.00000001%Q [(-1)%Q; 2%Q] [0%Q; 0%Q] = false /\
+         allclose 0%Q 0.00000001%Q [0%Q; 0%Q] [(-1)%Q; 2%Q] = false.
+Proof. exact @closed_loop_output_refuted. Qed.
+Print Assumptions C15_old_greedy_search_open_output_refuted.
 
